@@ -100,6 +100,9 @@ def run_verus_unit(unit, scratch, tier, seed):
             for rf in gv.reach:
                 if rf.first <= sp["line_start"] <= rf.last:
                     failed_fns.add(rf.name)
+    vr_v = resv["json"].get("verification-results", {})
+    if vr_v.get("encountered-vir-error") or (not resv["diags"] and resv["rc"] != 0):
+        ur.undecided.append("reachability variant did not run: " + (vunit.classify(resv, gv)[1] or ["?"])[0][:300])
     for rf in gv.reach:
         ok = rf.name in failed_fns
         ur.vacuity[rf.name] = ok
